@@ -625,6 +625,12 @@ public:
 				using T = std::decay_t<decltype(arg)>;
 
 				auto& options = this->GetOptions();
+				// The writer stops at a value which JSON cannot represent and leaves a truncated document
+				const auto accept = [this](auto& writer) {
+					if (!mRootJson.Accept(writer)) {
+						throw SerializationException(SerializationErrorCode::OutOfRange, "JSON cannot represent NaN, infinity or an ill-formed UTF string");
+					}
+				};
 				if constexpr (std::is_same_v<T, std::string*>)
 				{
 					using StringBuffer = rapidjson::GenericStringBuffer<rapidjson::UTF8<>>;
@@ -633,12 +639,12 @@ public:
 					{
 						rapidjson::PrettyWriter<StringBuffer, TEncoding, rapidjson::UTF8<>> writer(buffer);
 						writer.SetIndent(options.formatOptions.paddingChar, options.formatOptions.paddingCharNum);
-						mRootJson.Accept(writer);
+						accept(writer);
 					}
 					else
 					{
 						rapidjson::Writer<StringBuffer, TEncoding, rapidjson::UTF8<>> writer(buffer);
-						mRootJson.Accept(writer);
+						accept(writer);
 					}
 					*arg = buffer.GetString();
 				}
@@ -651,12 +657,12 @@ public:
 					{
 						rapidjson::PrettyWriter<AutoOutputStream, TEncoding, rapidjson::AutoUTF<uint32_t>> writer(eos);
 						writer.SetIndent(options.formatOptions.paddingChar, options.formatOptions.paddingCharNum);
-						mRootJson.Accept(writer);
+						accept(writer);
 					}
 					else
 					{
 						rapidjson::Writer<AutoOutputStream, TEncoding, rapidjson::AutoUTF<uint32_t>> writer(eos);
-						mRootJson.Accept(writer);
+						accept(writer);
 					}
 				}
 			}, mOutput);
